@@ -227,6 +227,47 @@ def rule_delay(chk, w):
                 nm, [defuse.show(defuse.DefUse(c.body).origin_local(0)) for c in cl]), g.span.loc())
 
 
+def _cumulative_by_map(w, f):
+    """cumulative_broadcast_heights as `(0..n).map(|_| { running = running + draw(rng); running }).collect()`:
+    the result is the collected map over 0..n of a closure that captures one mutable running height, defined in
+    the function only by `start`; the closure's only store through that capture is BlockHeight + draw(..) of the
+    captured value, and it returns the captured value after the store"""
+    b, du = f.body, defuse.DefUse(f.body)
+    ret = du.origin_local(0)
+    if not (ret[0] == "call" and ret[1].endswith("::collect") and ret[2] and ret[2][0][0] == "call" and
+            ret[2][0][1].endswith("::map") and len(ret[2][0][2]) == 2):
+        return False
+    rng_, cl = ret[2][0][2]
+    if not (rng_[0] == "agg" and rng_[1].endswith("Range") and rng_[2][0] == ("const", 0) and rng_[2][1] == ("arg", 1)):
+        return False
+    if not (cl[0] == "agg" and cl[1].startswith("closure:")):
+        return False
+    g = w.fns.get(cl[1][8:]) or next((x for x in w.fns.values() if x.p == cl[1][8:]), None)
+    if g is None:
+        return False
+    # which capture is the running height: a `&mut local` whose only definition is `start`
+    runs = [i for i, c in enumerate(cl[2]) if c[0] == "ref" and c[1] == ("arg", 0)]
+    if len(runs) != 1:
+        return False
+    k = runs[0]
+    gb, gdu = g.body, defuse.DefUse(g.body)
+
+    def is_cap(o):
+        o = defuse.strip_refs(o)
+        return o[0] == "field" and o[2] == ".%d" % k and defuse.strip_refs(o[1]) in (("local", 1), ("arg", 0))
+    stores = [st for blk in gb.blocks if not blk.cleanup for st in blk.stmts
+              if st.kind == "=" and st.place.proj and st.place.proj[0] == "*" and is_cap(gdu.origin_place(
+                  type(st.place)([st.place.local])))]
+    if len(stores) != 1 or stores[0].rv.kind != "use":
+        return False
+    v = gdu.origin(stores[0].rv.ops[0])
+    if not (v[0] == "call" and v[1] == BH_ADD and is_cap(v[2][0]) and v[2][1][0] == "call" and
+            v[2][1][1].endswith("::call")):
+        return False
+    r = gdu.origin_local(0)
+    return is_cap(r)
+
+
 def rule_mono(chk, w):
     f = _one(chk, w, "MONO", P + "cumulative_broadcast_heights")
     add = _one(chk, w, "MONO", BH_ADD)
@@ -249,7 +290,10 @@ def rule_mono(chk, w):
             kinds.append("add-drawn")
         else:
             kinds.append("other")
-    if run is not None and sorted(set(kinds)) == ["add-drawn", "start"] and kinds.count("start") == 1:
+    if run is None and not pushes and _cumulative_by_map(w, f):
+        chk.ok("MONO", "the running height starts as `start`; the closure mapped over 0..n replaces it by `height + "
+               "draw(rng)` and yields it; the collected values are returned", sample=True)
+    elif run is not None and sorted(set(kinds)) == ["add-drawn", "start"] and kinds.count("start") == 1:
         chk.ok("MONO", "the running height starts as `start`, is only replaced by `height + draw(rng)` and is what "
                "gets pushed", sample=True)
     else:
